@@ -12,7 +12,9 @@
 (*         back-references \k<-n>                                          *)
 (*   inl   (?i:x) written as (?:(?i)x)   (inline flag in a non-capturing   *)
 (*         scope; inline flags inside CAPTURING groups are finding F10)    *)
-(*   hex   0 literal characters ; 1 \xHH ; 2 \x{H..} ; 3 \uHHHH            *)
+(*   hex   0 literal characters ; 1 \xHH ; 2 \x{H..} ; 3 \uHHHH ;          *)
+(*         4 \x{h..} and 5 \u{h..} with LOWER-case digits and the full    *)
+(*         code point (so also for characters beyond U+00FF)               *)
 (*   poss  atomic group around a repeat written as possessive quantifier   *)
 (*   anch  ^ $ (outside multi-line mode) written \A \z                     *)
 (* Fragments starting with "@" are Text tokens written as the raw          *)
@@ -27,16 +29,24 @@ Styles == << Plain,
              [Plain EXCEPT !.x = TRUE], [Plain EXCEPT !.cmt = TRUE], [Plain EXCEPT !.names = 1], [Plain EXCEPT !.names = 2],
              [Plain EXCEPT !.names = 3], [Plain EXCEPT !.inl = TRUE], [Plain EXCEPT !.hex = 1], [Plain EXCEPT !.hex = 2],
              [Plain EXCEPT !.hex = 3], [Plain EXCEPT !.poss = TRUE], [Plain EXCEPT !.anch = TRUE],
+             [Plain EXCEPT !.hex = 4], [Plain EXCEPT !.hex = 5],
              [x |-> TRUE, cmt |-> TRUE, names |-> 1, inl |-> TRUE, hex |-> 2, poss |-> TRUE, anch |-> TRUE] >>
 
 Hex2(c) == CASE c = "a" -> "61" [] c = "b" -> "62" [] c = "c" -> "63" [] c = "A" -> "41" [] c = "B" -> "42"
              [] c = "N" -> "0A" [] c = "D" -> "2D" [] c = "S" -> "20" [] c = "E" -> "E9" [] OTHER -> ""
+HexL(c) == CASE c = "a" -> "61" [] c = "b" -> "62" [] c = "c" -> "63" [] c = "A" -> "41" [] c = "B" -> "42" [] c = "C" -> "43"
+             [] c = "x" -> "78" [] c = "y" -> "79" [] c = "0" -> "30" [] c = "1" -> "31" [] c = "9" -> "39"
+             [] c = "N" -> "a" [] c = "D" -> "2d" [] c = "S" -> "20" [] c = "R" -> "d" [] c = "U" -> "5f"
+             [] c = "E" -> "e9" [] c = "K" -> "e01" [] c = "T" -> "3042" [] c = "Q" -> "1f600" [] OTHER -> ""
 LitFrag(c, st, inClass) ==
    IF st.hex = 1 /\ Hex2(c) # "" THEN <<"\\x" \o Hex2(c)>>
    ELSE IF st.hex = 2 /\ Hex2(c) # "" THEN <<"\\x{" \o Hex2(c) \o "}">>
    ELSE IF st.hex = 3 /\ Hex2(c) # "" THEN <<"\\u00" \o Hex2(c)>>
+   ELSE IF st.hex = 4 /\ HexL(c) # "" THEN <<"\\x{" \o HexL(c) \o "}">>
+   ELSE IF st.hex = 5 /\ HexL(c) # "" THEN <<"\\u{" \o HexL(c) \o "}">>
    ELSE CASE c = "N" -> <<"\\n">> [] c = "S" -> <<"\\ ">> [] c = "D" -> IF inClass THEN <<"\\-">> ELSE <<"-">>
-          [] c \in {"E", "T", "Q"} -> <<"@" \o c>>
+          [] c \in {"E", "T", "Q", "K"} -> <<"@" \o c>>
+          [] c = "U" -> <<"_">> [] c = "R" -> <<"\\r">>
           [] OTHER -> <<c>>
 RECURSIVE ClassFrags(_, _, _)
 ClassFrags(set, st, j) == IF j > Len(set) THEN <<>> ELSE LitFrag(set[j], st, TRUE) \o ClassFrags(set, st, j + 1)
